@@ -4,6 +4,7 @@
 -/
 import CedarProofs.Roundtrip
 import CedarProofs.CodecStr
+import CedarProofs.Incremental
 
 namespace Cedar.C01
 
@@ -178,5 +179,73 @@ theorem typed_frame_accepted (s : Stream) (data : Bytes) (flag : Nat)
 /-! Non-vacuity (tests, not the claim): the band around the limit. -/
 example : ((({} : Stream).setKey 1 ⟨0, []⟩).sendFrame (List.replicate 10 0) 1).isOk = true := by decide
 example : maxMessageSize = 1048576 ∧ tagLen = 16 ∧ ivLen = 16 := by decide
+
+/-! ### The incremental receive API -/
+
+/-- the application's read loop: `ReadMessageBytes(n)` until it reports the end of the message -/
+def readLoop : Nat → Stream → Nat → Bytes → Except Err (Stream × Bytes)
+  | 0, s, _, acc => .ok (s, acc)
+  | fuel + 1, s, n, acc =>
+    match s.readMessageBytes n with
+    | .error .eom => .ok (s, acc)
+    | .error e => .error e
+    | .ok (s', d) => readLoop fuel s' n (acc ++ d)
+
+theorem readLoop_all : ∀ (fuel : Nat) (s : Stream) (n : Nat) (acc : Bytes),
+    0 < n → s.inMessage = true → s.bytesRead ≤ s.recvBuf.length → s.recvBuf.length - s.bytesRead < fuel →
+    readLoop fuel s n acc = .ok ({ s with bytesRead := s.recvBuf.length }, acc ++ s.recvBuf.drop s.bytesRead)
+  | 0, s, n, acc, _, _, _, hf => by omega
+  | fuel + 1, s, n, acc, hn, hin, hle, hf => by
+    unfold readLoop Stream.readMessageBytes
+    have hni : ¬ (!s.inMessage) = true := by simp [hin]
+    rw [if_neg hni]
+    by_cases hz : s.recvBuf.length - s.bytesRead = 0
+    · rw [if_pos hz]
+      have he : s.bytesRead = s.recvBuf.length := by omega
+      have hd : s.recvBuf.drop s.bytesRead = [] := by rw [he]; simp
+      rw [hd, List.append_nil]
+      congr 2
+      cases s; simp_all
+    · rw [if_neg hz]
+      simp only []
+      have ih := readLoop_all fuel { s with bytesRead := s.bytesRead + min n (s.recvBuf.length - s.bytesRead) } n
+        (acc ++ (s.recvBuf.drop s.bytesRead).take (min n (s.recvBuf.length - s.bytesRead))) hn hin
+        (by simp only []; omega) (by simp only []; omega)
+      rw [ih]
+      simp only [List.append_assoc]
+      congr 3
+      rw [← List.drop_drop, List.take_append_drop]
+
+/-- **incremental_equals_complete**: on any stream (plain or encrypted, any state) and any wire,
+    if `ReceiveCompleteMessage` would return `msg`, then `StartMessageRead` + `ReadMessageBytes(n)`
+    until end-of-message + `EndMessageRead` hands the application exactly `msg`, for every chunk
+    size `n`, consumes the same frames, and leaves the stream clean for the next message. -/
+theorem incremental_equals_complete (s s1 : Stream) (w w' : List WireFrame) (msg : Bytes) (n : Nat)
+    (hn : 0 < n) (hclean : s.inMessage = false) (hb : s.recvBuf = [])
+    (h : s.recvComplete w = .ok (s1, msg, w')) :
+    ∃ s2 s3 s4, s.startMessageRead w = .ok (s2, w') ∧
+      readLoop (msg.length + 1) s2 n [] = .ok (s3, msg) ∧
+      s3.endMessageRead = .ok s4 ∧
+      s4 = { s1 with recvBuf := [], totalMsg := 0, bytesRead := 0, inMessage := false } := by
+  have hs : s = s.withBuf [] s.totalMsg := by cases s; simp_all [Stream.withBuf]
+  have hrn := readNext_eq_complete w s s1 [] msg w' s.totalMsg h
+  rw [← hs] at hrn
+  let s2 : Stream := { s1 with recvBuf := msg, totalMsg := msg.length, inMessage := true, bytesRead := 0 }
+  refine ⟨s2, { s2 with bytesRead := msg.length },
+    { s1 with recvBuf := [], totalMsg := 0, bytesRead := 0, inMessage := false }, ?_, ?_, ?_, rfl⟩
+  · unfold Stream.startMessageRead
+    have : ¬ s.inMessage = true := by simp [hclean]
+    rw [if_neg this, hrn]
+    rfl
+  · have := readLoop_all (msg.length + 1) s2 n [] hn rfl (Nat.zero_le _) (by show msg.length - 0 < msg.length + 1; omega)
+    rw [this]
+    show Except.ok (_, [] ++ List.drop 0 msg) = _
+    simp
+    rfl
+  · unfold Stream.endMessageRead
+    have h1 : ¬ (!({ s2 with bytesRead := msg.length } : Stream).inMessage) = true := by simp [s2]
+    have h2 : ¬ ({ s2 with bytesRead := msg.length } : Stream).bytesRead < ({ s2 with bytesRead := msg.length } : Stream).totalMsg := by
+      simp [s2]
+    rw [if_neg h1, if_neg h2]
 
 end Cedar.C01
